@@ -35,6 +35,20 @@ type c07Case struct {
 	Conc    int    `json:"conc"`
 	WriteTo bool   `json:"writeto"`
 	Sizes   []int  `json:"sizes,omitempty"`
+	Grow    bool   `json:"grow,omitempty"` // WriteTo into a destination that can be asked to grow (a bytes.Buffer): the meter covers what it is told to allocate
+}
+
+// growSink: a bounded bytes.Buffer (Grow, ReadFrom, WriteString ... are promoted).
+type growSink struct {
+	bytes.Buffer
+	limit int
+}
+
+func (g *growSink) Write(p []byte) (int, error) {
+	if g.Len()+len(p) > g.limit {
+		return 0, inst.ErrSinkFull
+	}
+	return g.Buffer.Write(p)
 }
 
 func (c c07Case) input() []byte {
@@ -76,7 +90,11 @@ func c07Read(c c07Case, src io.Reader, consumed func() int64) c07Out {
 		return o
 	}
 	limit := 64 << 20 // keep the output bounded: only termination matters beyond that
-	if c.WriteTo {
+	if c.WriteTo && c.Grow {
+		sink := &growSink{limit: limit}
+		_, o.err = rd.WriteTo(sink)
+		o.out = sink.Bytes()
+	} else if c.WriteTo {
 		sink := &inst.Sink{Cap: limit}
 		_, o.err = rd.WriteTo(sink)
 		o.out = sink.Buf
@@ -250,6 +268,7 @@ func drawC07(t *rapid.T) c07Case {
 	var c c07Case
 	c.Conc = rapid.SampledFrom([]int{1, 1, 2, 4}).Draw(t, "conc")
 	c.WriteTo = rapid.IntRange(0, 2).Draw(t, "writeto?") == 0
+	c.Grow = c.WriteTo && rapid.Bool().Draw(t, "grow?")
 	if !c.WriteTo {
 		c.Sizes = rapid.SliceOfN(rapid.SampledFrom([]int{1, 7, 4095, 65536}), 1, 3).Draw(t, "sizes")
 	}
@@ -315,7 +334,7 @@ func drawC07(t *rapid.T) c07Case {
 				}
 			case 2:
 				spec.HasSize = true
-				spec.SizeField = u64(rapid.SampledFrom([]uint64{1<<64 - 1, 1 << 63, 1 << 40}).Draw(t, "sizefield"))
+				spec.SizeField = u64(rapid.SampledFrom([]uint64{1<<64 - 1, 1 << 63, 1 << 40, 1 << 30, 768 << 20, 1<<31 - 1, 1<<32 - 1, 1 << 32}).Draw(t, "sizefield"))
 			case 3:
 				spec.Skips = append(spec.Skips, ref.EncSkip{Nibble: rapid.IntRange(0, 15).Draw(t, "nib"), Data: []byte{1, 2, 3}, LenWord: u32(rapid.SampledFrom([]uint32{1<<32 - 1, 1 << 31, 1 << 30, 4}).Draw(t, "skiplen"))})
 			case 4:
@@ -427,6 +446,17 @@ func TestC07Deep(t *testing.T) {
 	big := make([]byte, 1<<20)
 	for _, n := range []uint32{0xFFFFFFFF, 0xFFFF0001, 0xFFFF0000} {
 		cases = append(cases, c07Case{Kind: "skipbig", Prefix: append([]byte{0x53, 0x2A, 0x4D, 0x18}, le(n)...), Unit: big, Count: int(n >> 20), Suffix: append(append(make([]byte, n&(1<<20-1)), frameHdr...), 0, 0, 0, 0), Conc: 1, Sizes: []int{65536}})
+	}
+	// a tiny frame that announces a content size between the block maximum and 2^32, decoded into a destination that can be told to grow
+	for _, announced := range []uint64{5 << 20, 256 << 20, 768 << 20, 1 << 30, 1<<31 - 1, 1<<32 - 1} {
+		var sink inst.Sink
+		w := lz4.NewWriter(&sink)
+		_ = w.Apply(lz4.SizeOption(announced), lz4.BlockSizeOption(lz4.Block64Kb))
+		_, _ = w.Write([]byte("hello world"))
+		_ = w.Close()
+		for _, conc := range []int{1, 4} {
+			cases = append(cases, c07Case{Kind: "random", Bytes: sink.Buf, Conc: conc, WriteTo: true, Grow: true}, c07Case{Kind: "random", Bytes: sink.Buf, Conc: conc, Sizes: []int{4096}})
+		}
 	}
 	for _, c := range cases {
 		pinned(t, "C07", "C07/reader", c, runC07)
